@@ -49,6 +49,12 @@ class ExecutionPlanner:
             lt = stack.pop()
 
             if lt.state == LoweringState.FIRST_VISIT:
+                if lt.task.identifier in visited:
+                    # This task was already reached (and lowered) through
+                    # another dependency path while this entry was waiting on
+                    # the stack. It must not be lowered a second time.
+                    continue
+
                 # First visit to this task.
                 visited[lt.task.identifier] = lt
 
@@ -151,7 +157,9 @@ class ExecutionPlanner:
 
                 # Hook the new dependency into the graph.
                 for dep in lt.deps:
-                    for dep_op in dep.output_ops:
+                    # Always link against the (single) lowered instance of the
+                    # dependency, which is the one recorded in `visited`.
+                    for dep_op in visited[dep.task.identifier].output_ops:
                         new_op.add_exe_dep(dep_op)
                         dep_op.add_dep_of(new_op)
                 lt.output_ops.append(new_op)
